@@ -430,6 +430,11 @@ theorem serve_loop_is_source (steps : List Step) :
 theorem teardown_delivers_queued (queued : List Message) : teardownDelivered Gen.serveFacts queued = queued := by
   rw [serve_facts]; rfl
 
+/-- An off-reader response survives a full outbound queue (peer not reading at the moment the handler returns). -/
+theorem offreader_response_survives_full_queue (queueFull : Bool) (resp : Message) :
+    offReaderHandoff Gen.serveFacts queueFull resp = some resp := by
+  rw [serve_facts]; cases queueFull <;> rfl
+
 /-- A dispatched notify is run exactly once on every path — also off the reader, whatever happens to the connection
 in the meantime — and answered on none. -/
 theorem notify_invoked_once_unanswered (hr : route Gen.codes req utf8 found = .dispatch) (hn : req.isNotify = true) :
